@@ -24,10 +24,10 @@ CHAINS_QUICK = [
     ("persist %d" % _BIG, _FULL, ["persist 5"]),
 ]
 CHAINS_THOROUGH = CHAINS_QUICK + [
-    ("persist %d" % _BIG, _FULL, ["persistseq 5 %d 6" % _BIG, "startpersist 1"]),
-    ("persist 5", "d1 w1 - w2 - w2 - w%d -" % _BIG, ["persist %d" % _BIG, "persist 2"]),
+    ("persist %d" % _BIG, _FULL, ["persistseq 5 %d 6" % _BIG]),
+    ("persist 5", "d1 w1 - w2 - w2 - w%d -" % _BIG, ["persist %d" % _BIG]),
     ("persistseq %d 5 %d" % (_BIG, _BIG), _FULL_NOSLEEP, ["persist 6"]),
-    ("start", _EMPTY, ["start", "storeid 3"]),
+    ("start", _EMPTY, ["start"]),
 ]
 
 SCENARIOS_QUICK = [
@@ -106,7 +106,7 @@ def extra(c):
     if not c.harness or "c34" not in c.drivers:
         return
     scen = list(SCENARIOS_THOROUGH if c.tier == "thorough" else SCENARIOS_QUICK)
-    scen += random_scenarios(c.seed, 24 if c.tier == "thorough" else 4)
+    scen += random_scenarios(c.seed, 6 if c.tier == "thorough" else 3)
     from concurrent.futures import ThreadPoolExecutor
 
     def sweep(job):
@@ -115,7 +115,7 @@ def extra(c):
         n = 1
         while True:
             line = "crash %s %d %s" % (cls, n, sc)
-            out = c.go_run("c34", [line], timeout=120)[0]
+            out = c.go_run("c34", [line], timeout=600)[0]
             ls.append(line)
             os_.append(out)
             if not out.startswith("killed "):
@@ -131,7 +131,12 @@ def extra(c):
     complete = True
     chains = CHAINS_THOROUGH if c.tier == "thorough" else CHAINS_QUICK
     with ThreadPoolExecutor(max_workers=8) as ex:
-        for ls, os_, done in ex.map(sweep, [(sc, cls) for sc in scen for cls in CLASSES]):
+        # The structured quick scenarios are killed at every call of every class. For the additional (thorough-only and
+        # random) scenarios the classes open/close/unlink are left out: a kill on entry of an open or close leaves what
+        # the kill on entry of the neighbouring write or rename leaves.
+        core = set(SCENARIOS_QUICK)
+        jobs = [(sc, cls) for sc in scen for cls in (CLASSES if sc in core else ("write", "rename", "mkdir"))]
+        for ls, os_, done in ex.map(sweep, jobs):
             lines += ls
             outs += os_
             complete = complete and done
@@ -149,7 +154,8 @@ def extra(c):
                         if "unexpected" not in s1 and len(s1.split()) == 9:
                             left.add(s1)
             chain_states += len(left)
-            jobs = [(t + " " + s1, cls) for s1 in sorted(left) for t in thens for cls in ("open", "write", "rename", "close")]
+            # a kill on entry of an open/close leaves what the kill on entry of the neighbouring write/rename leaves
+            jobs = [(t + " " + s1, cls) for s1 in sorted(left) for t in thens for cls in ("write", "rename")]
             for ls, os_, done in ex.map(sweep, jobs):
                 lines += ls
                 outs += os_
